@@ -300,6 +300,11 @@ func lexExpression(l *lexer) stateFn {
 	case str == delimEOF:
 		return lexData
 
+	case l.parens == 0 && l.mode == modeInterpolate && str == "}":
+		// The brace that ends an interpolation, even when the string goes on
+		// with another one: "{#{key}}".
+		return lexCloseParens
+
 	case strings.HasPrefix(l.input[l.pos:], delimCloseTag),
 		strings.HasPrefix(l.input[l.pos:], delimTrimWhitespace+delimCloseTag):
 		if l.pos > l.start {
